@@ -129,6 +129,9 @@ type relax struct {
 	// {__name__="..."} matcher are not expected (pint compares the selector's
 	// identifier name only).
 	ignoreNameMatcher bool
+	// lostSources: fork-point paths (hist.LostRenameSources) on which an expected
+	// warning may be missing.
+	lostSources []string
 }
 
 type expectation struct {
@@ -249,7 +252,11 @@ func sortWarns(w []Warn) {
 
 // compare demands: a warning on exactly the expected removed rules, each
 // listing exactly the expected dependants.
-func compare(want, got []Warn) error {
+func compare(want, got []Warn, optionalPaths []string) error {
+	optional := map[string]bool{}
+	for _, p := range optionalPaths {
+		optional[p] = true
+	}
 	sortWarns(want)
 	sortWarns(got)
 	key := func(w Warn) string { return fmt.Sprintf("%s:%d", w.Path, w.Line) }
@@ -264,6 +271,9 @@ func compare(want, got []Warn) error {
 	for _, w := range want {
 		wm[key(w)] = true
 		g, ok := gm[key(w)]
+		if !ok && optional[w.Path] {
+			continue
+		}
 		if !ok {
 			return fmt.Errorf("removed rule %q (%s, fork-point version) has no replacement at HEAD and is still used by %v: no rule/dependency problem reported on it", w.Name, key(w), w.Deps)
 		}
@@ -360,18 +370,28 @@ func observeBinary(repo *hist.Repo) ([]Warn, error) {
 // only through a {__name__="..."} matcher.
 const classNameMatcher = "dependant-selects-by-name-matcher"
 
+// classLostSource: the removed rule lives in a file that the branch renamed onto
+// a path it had deleted earlier, and that path was touched again afterwards
+// (hist.LostRenameSources).
+const classLostSource = "rename-onto-deleted-path-then-touched"
+
 func judge(h hist.History, got []Warn) (expectation, string, error) {
 	ex, err := expected(h, relax{})
 	if err != nil {
 		return ex, "", err
 	}
-	err = compare(ex.warns, got)
+	err = compare(ex.warns, got, nil)
 	if err == nil {
 		return ex, "", nil
 	}
 	if ex.viaMatcher > 0 {
-		if rex, e2 := expected(h, relax{ignoreNameMatcher: true}); e2 == nil && compare(rex.warns, got) == nil {
+		if rex, e2 := expected(h, relax{ignoreNameMatcher: true}); e2 == nil && compare(rex.warns, got, nil) == nil {
 			return ex, classNameMatcher, err
+		}
+	}
+	if lost := h.LostRenameSources(); len(lost) > 0 {
+		if compare(ex.warns, got, lost) == nil {
+			return ex, classLostSource, err
 		}
 	}
 	return ex, "", err
@@ -657,11 +677,22 @@ func minimalCases() map[string]Case {
 	prov := hist.Rule{Name: "a:x", Expr: "sum(up) by (job)"}
 	user := hist.Rule{Alert: true, Name: "b:y", Expr: `{__name__="a:x"} > 0`, For: "5m"}
 	plain := hist.Rule{Name: "c:z", Expr: `a:x * 2`}
+	filler := hist.Rule{Name: "d:w", Expr: `up`}
+	filler2 := hist.Rule{Name: "e_v", Expr: `up == 0`}
 	return map[string]Case{
 		// the only dependant selects the removed metric through a __name__ matcher
 		"name-matcher": {Bin: true, History: hist.History{
 			Base:   []hist.Commit{{Msg: "base", Tree: tree(map[string]hist.File{"rules/a.yml": oneGroup(prov), "rules/b.yml": oneGroup(user)})}},
 			Branch: []hist.Commit{{Msg: "remove the recording rule", Ops: []string{"file-del rules/a.yml"}, Tree: tree(map[string]hist.File{"rules/b.yml": oneGroup(user)})}},
+		}},
+		// the provider's file is renamed onto a path deleted earlier on the branch, then the provider is removed
+		"lost-rename-source": {Bin: true, History: hist.History{
+			Base: []hist.Commit{{Msg: "base", Tree: tree(map[string]hist.File{"rules/a.yml": oneGroup(prov), "rules/b.yml": oneGroup(filler), "rules/c.yml": oneGroup(plain)})}},
+			Branch: []hist.Commit{
+				{Msg: "delete b", Ops: []string{"file-del rules/b.yml"}, Tree: tree(map[string]hist.File{"rules/a.yml": oneGroup(prov), "rules/c.yml": oneGroup(plain)})},
+				{Msg: "rename a to b", Ops: []string{"rename rules/a.yml->rules/b.yml"}, Renames: [][2]string{{"rules/a.yml", "rules/b.yml"}}, Tree: tree(map[string]hist.File{"rules/b.yml": oneGroup(prov), "rules/c.yml": oneGroup(plain)})},
+				{Msg: "replace the provider", Ops: []string{"rule-del rules/b.yml", "rule-add rules/b.yml"}, Tree: tree(map[string]hist.File{"rules/b.yml": oneGroup(filler2), "rules/c.yml": oneGroup(plain)})},
+			},
 		}},
 		// control: the same history with a plain selector is reported
 		"plain-selector-control": {Bin: true, History: hist.History{
